@@ -24,7 +24,8 @@ EXPLANATION = (
     ' Third round: every category string of the shipped model files is well-formed text (R5.4, independent reader of sa/datafiles.py).'
     ' Fourth round: the tokeniser is the pattern applied to the whole text; an operand stack kept in a module-level list is reported.'
     ' Fifth round: the tokeniser is applied to the text as given (only blanks removed); a blank inside an atom or feature of a model-file category is ill-formed.'
-    ' Sixth and seventh round: Feature.parse keeps the text on every path; every atom the reader pushes is built from the tokens as read (parse:atom-as-read); a second stack next to the operand stack must be balanced (parse:aux-stack-unbalanced); an opening round bracket and the slashes are pushed as read (parse:marks).')
+    ' Sixth and seventh round: Feature.parse keeps the text on every path; every atom the reader pushes is built from the tokens as read (parse:atom-as-read); a second stack next to the operand stack must be balanced (parse:aux-stack-unbalanced); an opening round bracket and the slashes are pushed as read (parse:marks).'
+    ' Eighth round: no __post_init__ / __new__ of a value class rewrites a field; an atom prints its feature by value, not by identity with a default object.')
 TRUSTED = ['CPython ast', 're._parser (sre_parse) for the tokeniser regex', 'sa/pysym.py path walker']
 
 REL = 'depccg/cat.py'
